@@ -167,7 +167,11 @@ CHECK_DEADLOCK FALSE
         for step in range(6):
             present = list(h.nodes)
             absent = [n for n in names if n not in present]
-            if rnd.random() < 0.2:
+            if absent and len(present) > 1 and rnd.random() < 0.3:
+                # one node replaced by another with no lookup in between: the rotation keeps its size, placement follows the set
+                h.remove_node(rnd.choice(present))
+                h.add_node(rnd.choice(absent))
+            elif rnd.random() < 0.2:
                 h.add_node(rnd.choice(present))        # already there: a no-op
             elif absent and (len(present) <= 1 or rnd.random() < 0.55):
                 h.add_node(rnd.choice(absent))
